@@ -19,6 +19,7 @@ package main
 // the config-facing literal "tcp-dynamic" are the anchors.
 
 import (
+	"strconv"
 	"go/ast"
 	"go/token"
 	"sort"
@@ -764,6 +765,43 @@ func init() {
 				}
 				return true
 			})
+			// the channel handed to signal.Notify: its capacity, and whether Notify sits inside a loop (a channel per
+			// iteration misses what arrives between two registrations)
+			chanCap, notifyInLoop := uint64(0), false
+			notifyChans := map[string]bool{}
+			for _, c := range x.calls(fd.Body, "signal.Notify") {
+				if len(c.Args) > 0 {
+					if id, ok := c.Args[0].(*ast.Ident); ok {
+						notifyChans[id.Name] = true
+					}
+				}
+			}
+			ast.Inspect(fd.Body, func(m ast.Node) bool {
+				switch v := m.(type) {
+				case *ast.AssignStmt:
+					if len(v.Lhs) == 1 && len(v.Rhs) == 1 {
+						if id, ok := v.Lhs[0].(*ast.Ident); ok && notifyChans[id.Name] {
+							if c, ok := v.Rhs[0].(*ast.CallExpr); ok && x.src(c.Fun) == "make" && len(c.Args) == 2 {
+								if bl, ok := c.Args[1].(*ast.BasicLit); ok && bl.Kind == token.INT {
+									n, _ := strconv.ParseUint(bl.Value, 10, 64)
+									chanCap = n
+								}
+							}
+						}
+					}
+				case *ast.ForStmt:
+					if len(x.calls(v.Body, "signal.Notify")) > 0 {
+						notifyInLoop = true
+					}
+				case *ast.RangeStmt:
+					if len(x.calls(v.Body, "signal.Notify")) > 0 {
+						notifyInLoop = true
+					}
+				}
+				return true
+			})
+			x.defNat("exitListenChanCap", chanCap)
+			x.defBool("exitListenNotifyInLoop", notifyInLoop)
 			x.defNat("exitListenSelectsWithQuit", uint64(selects))
 			x.defNat("exitListenReceivesWithoutQuit", uint64(bare))
 		}
